@@ -112,6 +112,18 @@ var (
 func (r *Rng) address(d Domain, b *Budget) pdu.Address {
 	a := pdu.Address{TON: r.Byte(), NPI: r.Byte()}
 	n := r.strLen(b)
+	if r.Chance(30) {
+		// the values real traffic carries: international / national / alphanumeric numbers in the E.164 plan, written
+		// with and without dialling prefixes
+		a.TON, a.NPI = byte(r.Pick(0, 1, 1, 2, 5)), byte(r.Pick(0, 1, 1, 8))
+		digits := make([]byte, r.Range(0, 15))
+		for i := range digits {
+			digits[i] = byte('0' + r.Intn(10))
+		}
+		a.No = []string{"", "+", "00", "0"}[r.Pick(0, 0, 1, 1, 2, 3)] + string(digits)
+		b.Left -= len(a.No)
+		return a
+	}
 	if d == Unconstrained && r.Chance(10) {
 		a.No = string(r.Bytes(n))
 	} else {
